@@ -281,7 +281,7 @@ var c04IndexTable = map[string]string{
 	"internal/simplecue.generator.stringOrIntegerFromEnum conjuncts[0] #3":                            "appendSplit returns at least the value itself, and the function leaves when len(conjuncts) == 1: two or more conjuncts",
 	"internal/simplecue.generator.stringOrIntegerFromEnum conjuncts[0] #4":                            "appendSplit returns at least the value itself, and the function leaves when len(conjuncts) == 1: two or more conjuncts",
 	"internal/simplecue.generator.stringOrIntegerFromEnum conjuncts[0] #5":                            "appendSplit returns at least the value itself, and the function leaves when len(conjuncts) == 1: two or more conjuncts",
-	"internal/ast.BuilderGenerator.structObjectToBuilder option.Assignments[0]":                      "option is what structFieldToOption returned one statement earlier: an Option literal whose Assignments is the one-element literal []Assignment{FieldAssignment(field)}",
+	"internal/ast.BuilderGenerator.structObjectToBuilder option.Assignments[0]":                       "option is what structFieldToOption returned one statement earlier: an Option literal whose Assignments is the one-element literal []Assignment{FieldAssignment(field)}",
 	"internal/veneers/option.StructFieldsAsOptionsAction newOpt.Assignments[0]":                       "newOpt is built by structFieldToOption-like code just above with exactly one assignment",
 	"internal/veneers/option.StructFieldsAsOptionsAction newOpt.Assignments[0] #2":                    "newOpt is built by structFieldToOption-like code just above with exactly one assignment",
 	"internal/ast/compiler.RenameNumericEnumValues.enumMemberNameFromValue member.Name[0]":            "its only caller first requires strconv.Atoi(val.Name) to succeed: the name is a printed integer, never empty",
